@@ -420,9 +420,12 @@ class Interp:
             if isinstance(tgt.slice, ast.Slice):
                 lo = ev(tgt.slice.lower, env) if tgt.slice.lower else None
                 hi = ev(tgt.slice.upper, env) if tgt.slice.upper else None
-                if tgt.slice.step is not None:
-                    raise Unknown('slice step in store')
-                idx = slice(lo, hi)
+                st_ = ev(tgt.slice.step, env) if tgt.slice.step is not None else None
+                if isinstance(st_, Sym):
+                    raise Unknown('symbolic slice step in store')
+                idx = slice(lo, hi, st_)
+                if st_ is not None and hasattr(val, '__next__'):
+                    val = list(val)
             else:
                 idx = ev(tgt.slice, env)
             if isinstance(base, Sym) or isinstance(idx, Sym):
@@ -431,6 +434,8 @@ class Interp:
                 base[idx] = val
             except Unknown:
                 raise
+            except ValueError as ex:
+                raise Raised(tgt, ValueError, str(ex))
             except Exception as ex:
                 raise Unknown(f'store {ast.unparse(tgt)}: {type(ex).__name__}: {ex}')
         elif isinstance(tgt, ast.Attribute):
